@@ -154,7 +154,7 @@ def one_case(ctx: Ctx, J, s, s2, dtype, exact_model: bool):
 def main(ctx: Ctx):
     ctx.lean_gate()
     rng = ctx.rng
-    n_cases = 250 if ctx.tier == "quick" else 6000
+    n_cases = 250 if ctx.tier == "quick" else 40000
     for i in range(n_cases):
         m = rng.choice([1, 2, 2, 3, 3, 4, 5])
         n = rng.choice([1, 2, 3, 4, 6])
